@@ -210,8 +210,8 @@ theorem MK.insertOrdered {sv : Server} (sid : Nat) (key before : Bytes) (vals : 
     intro sv2 x h2
     mk_chain2
 
-theorem MK.reorder {sv : Server} (sid : Nat) (key before : Bytes) (h : MK sv) : MK (reorder sv sid key before) := by
-  unfold Reflector.reorder
+theorem MK.reorderCore {sv : Server} (sid : Nat) (key before : Bytes) (h : MK sv) : MK (reorderCore sv sid key before) := by
+  unfold Reflector.reorderCore
   split
   · exact h
   · simp only []
@@ -219,6 +219,15 @@ theorem MK.reorder {sv : Server} (sid : Nat) (key before : Bytes) (h : MK sv) : 
     intro sv1 v h1
     repeat' split
     all_goals first | exact h1 | exact h1.reorderChild ..
+
+theorem MK.reorder {sv : Server} (sid : Nat) (key before : Bytes) (h : MK sv) : MK (reorder sv sid key before) := by
+  unfold Reflector.reorder
+  simp only []
+  split
+  · exact h.reorderCore sid key before
+  · split
+    · exact (h.reorderCore sid key before).updSess_keep _ _ (by intro _; exact ⟨rfl, rfl⟩)
+    · exact h.reorderCore sid key before
 
 theorem mr_skel_doGetData (sv : Server) (sid : Nat) (keys : List (Bytes × Option Filt)) :
     skel (doGetData sv sid keys) = skel sv := by
